@@ -497,6 +497,10 @@ impl TypeChecker {
         scope: ScopeRef,
         name: ResolvedName,
     ) -> Result<(), String> {
+        if !self.type_info.scope_graph.declarations.contains_key(&name) {
+            return Err(format!("Could not find `{}`", name.ident));
+        }
+
         if self
             .type_info
             .scope_graph
